@@ -192,6 +192,34 @@ var dtDeclRE = regexp.MustCompile(`^\(declare-datatypes \(\((S_[A-Za-z0-9_$]+) 0
 // sorts known to the program grows as functions are visited).
 func pruneDatatypes(text string) string {
 	lines := strings.Split(text, "\n")
+	// zero-array constants (declaration plus defining axiom) that nothing else mentions
+	{
+		keep := lines[:0:0]
+		for i := 0; i < len(lines); i++ {
+			l := lines[i]
+			if strings.HasPrefix(l, "(declare-const zarr_") {
+				name := strings.Fields(l)[1]
+				used := false
+				for j, m := range lines {
+					if j == i || (j == i+1 && strings.HasPrefix(m, "(assert (forall ((k Int)) (! (= (select "+name+" k)")) {
+						continue
+					}
+					if strings.Contains(m, name) {
+						used = true
+						break
+					}
+				}
+				if !used {
+					if i+1 < len(lines) && strings.HasPrefix(lines[i+1], "(assert (forall ((k Int)) (! (= (select "+name+" k)") {
+						i++
+					}
+					continue
+				}
+			}
+			keep = append(keep, l)
+		}
+		lines = keep
+	}
 	type dt struct {
 		idx  int
 		name string
